@@ -410,7 +410,13 @@ func (m *recProducer) ProduceSync(_ context.Context, rs ...*kgo.Record) kgo.Prod
 	defer rec.mu.Unlock()
 	st := rec.next()
 	for _, r := range rs {
-		rec.add([]byte(r.Topic), -1)
+		topic := []byte(r.Topic)
+		if r.Key != nil || len(r.Headers) > 0 || r.Partition != 0 {
+			// out() never sets these on its reused records; one that shows up routes the record somewhere
+			// else (partitioning by key) or adds data no event carries: reported as a topic no model has
+			topic = append([]byte("!record-has-key-headers-or-partition!"), topic...)
+		}
+		rec.add(topic, -1)
 		rec.add(r.Value, st)
 	}
 	if st >= 200 && st <= 202 {
@@ -1223,6 +1229,10 @@ func c19Gen(c *hmain.Ctx) {
 	// ---- 7b'. splunk copy_fields (envelope per event) and heterogeneous batches for every sink (splunkcopy.go)
 	g.splunkCopyStreams()
 	g.heteroStreams(allSinks, names)
+	glap("splunk+hetero")
+	// ---- 7b''. routing values (kafka topic, ES index) over histories on one fresh worker instance (routing.go)
+	g.routingStreams(allSinks)
+	glap("routing")
 
 	// ---- 7c..: streams that cross the buffer / table / status thresholds (thresholds.go)
 	g.thresholdStreams(allSinks, names, es3.sx(), es3.vals)
@@ -1341,6 +1351,6 @@ func main() {
 		}
 	}()
 	hmain.Run(&hmain.Prop{ID: "C19",
-		Rule: "exhaustive: every batch of <= 3 events over 5 event shapes x {regular, parent} (+child) for 11 sink configurations; every 200/413/500 script of length <= 4 on batches of <= 4 events for ES/http split; every kind vector <= 5 for ForEach; every string <= 5 (6) over a JSON alphabet for the recogniser. Random: 1-4 successive batches of 0-16 random events (adversarial strings, non-string values) with random scripts, retries, 413-heavy splits. Threshold streams (thresholds.go): rows-* small AvgEventSize x batch_size rows incl. gzip / two endpoints on persistent instances, bigsmall-* payloads above and below the row's outBuf threshold alternating on one fresh instance (also the 65536-byte production row), bigbatch-* 17-40 events, status-edge-* 199..300, gelf-time values around 1e9 / 1e12, gelf-wide / wide-* 15-40 field roots with Dig before out(), rotate-file seal-up between writes, exhaustive-/random-/status-edge-loki through the plugin's own batcher. Splunk copy_fields (splunkcopy.go): exhaustive-splunk-copy every batch of <= 3 events over 6 shapes differing in which source fields they carry (+2 parents) x 8 configurations (nested / colliding / dropped targets, whole event), random-splunk-copy 18 configurations per run x 1-3 batches of 0-8 events with source fields present with probability 1/2 and of every JSON type x answers incl. retries, leak-splunk-copy carrier / bare alternation; hetero-<sink> full / bare / partial events alternating for every sink. Coverage round (coverage.go, via.go): resp-<sink> every script of length <= 2 over {200, 500, one answer per response-body kind the sink's reader accepts / rejects (+413 with split_batch)} on a batch of three (one parent) + a batch of one for ES with / without process_response and split_batch, http, splunk, and kinds mixed into the random / retry scripts; ES without index_values as 13th exhaustive configuration; exhaustive-via-<sink> every batch of <= 2 events over 2 shapes x {regular, parent} and random-via-<sink> 1-3 batches of 0-6 events (all-parent batches, retries, give-up into the dead queue, 400) through Factory / Start / Out of es, http (json, raw), splunk, file, gelf (reconnect every batch); timeout-via-<sink> one batch sealed by batch_flush_timeout per sink (child processes); gelf-cfg two other sets of gelf field options; restart-file the file sink stopped and started again between batches. Non-trivial = at least 2 events and one deliverable (sinks), >= 2 symbols (recogniser); distinct = distinct (sub-model, case) text.",
+		Rule: "exhaustive: every batch of <= 3 events over 5 event shapes x {regular, parent} (+child) for 11 sink configurations; every 200/413/500 script of length <= 4 on batches of <= 4 events for ES/http split; every kind vector <= 5 for ForEach; every string <= 5 (6) over a JSON alphabet for the recogniser. Random: 1-4 successive batches of 0-16 random events (adversarial strings, non-string values) with random scripts, retries, 413-heavy splits. Threshold streams (thresholds.go): rows-* small AvgEventSize x batch_size rows incl. gzip / two endpoints on persistent instances, bigsmall-* payloads above and below the row's outBuf threshold alternating on one fresh instance (also the 65536-byte production row), bigbatch-* 17-40 events, status-edge-* 199..300, gelf-time values around 1e9 / 1e12, gelf-wide / wide-* 15-40 field roots with Dig before out(), rotate-file seal-up between writes, exhaustive-/random-/status-edge-loki through the plugin's own batcher. Splunk copy_fields (splunkcopy.go): exhaustive-splunk-copy every batch of <= 3 events over 6 shapes differing in which source fields they carry (+2 parents) x 8 configurations (nested / colliding / dropped targets, whole event), random-splunk-copy 18 configurations per run x 1-3 batches of 0-8 events with source fields present with probability 1/2 and of every JSON type x answers incl. retries, leak-splunk-copy carrier / bare alternation; hetero-<sink> full / bare / partial events alternating for every sink. Coverage round (coverage.go, via.go): resp-<sink> every script of length <= 2 over {200, 500, one answer per response-body kind the sink's reader accepts / rejects (+413 with split_batch)} on a batch of three (one parent) + a batch of one for ES with / without process_response and split_batch, http, splunk, and kinds mixed into the random / retry scripts; ES without index_values as 13th exhaustive configuration; exhaustive-via-<sink> every batch of <= 2 events over 2 shapes x {regular, parent} and random-via-<sink> 1-3 batches of 0-6 events (all-parent batches, retries, give-up into the dead queue, 400) through Factory / Start / Out of es, http (json, raw), splunk, file, gelf (reconnect every batch); timeout-via-<sink> one batch sealed by batch_flush_timeout per sink (child processes); gelf-cfg two other sets of gelf field options; restart-file the file sink stopped and started again between batches. Routing (routing.go, round 5): route-kafka every history of two batches of <= 2 events over 6 event options (topic, topic with quote / newline, no topic field, empty string, an object in the field, a parent) x use_topic_field on / off and every history of three one-event batches, route-kafka-random 2-5 batches of 0..batch_size events with the topic field present with probability 1/2 (small pool, nasty strings, other JSON types) and failed produce calls, route-es every history of two batches of <= 2 events over 5 options differing in the index value x two index formats, route-es-random 2-4 batches with retries / 413 — every case (route-es in the quick tier excepted) on a plugin instance of its own, so the worker's record slots and buffers hold exactly the history in the case. Non-trivial = at least 2 events and one deliverable (sinks), >= 2 symbols (recogniser); distinct = distinct (sub-model, case) text.",
 		Gen:  c19Gen, Exec: c19Exec})
 }
